@@ -536,7 +536,7 @@ var fallbackSolvers = []struct {
 // FallbackTimeout is the per-query cap of the portfolio back ends, in CPU
 // seconds of each back end (enforced with RLIMIT_CPU); the wall-clock cap is
 // the same figure stretched by the machine's load factor.
-var FallbackTimeout = 60 * time.Second
+var FallbackTimeout = 150 * time.Second
 
 // LoadFactor is max(1, min(6, 1-minute load average / CPUs)): how much longer
 // than on an idle machine a CPU-bound job is expected to take right now.
